@@ -9,6 +9,18 @@ def sh(cmd, cwd=None):
     return p.returncode, p.stdout + p.stderr
 
 names = sys.argv[1:] or sorted(os.listdir(f'{VERIF}/seeded'))
+# only checks whose units lift text from a file the patch touches can change their verdict: run just those
+import re
+_units = json.load(open(f'{VERIF}/units.json'))
+def _files_of(tpl):
+    txt = open(os.path.join(VERIF, tpl)).read()
+    for fr in re.findall(r'(?m)^//@fragment (\w+)', txt):
+        txt += open(f'{VERIF}/units/frag/{fr}.vrs').read()
+    return set(re.findall(r'\bfile=(\S+)', txt))
+_unit_files = {u: _files_of(c['template']) for u, c in _units.items()}
+def affected(diff_path):
+    touched = set(re.findall(r'(?m)^\+\+\+ b/(\S+)', open(diff_path).read()))
+    return {p for u, fs in _unit_files.items() if fs & touched for p in _units[u]['properties']}
 for name in names:
     d = f'{VERIF}/seeded/{name}'
     rc, out = sh(f'git -C {REPO} apply {d}/patch.diff')
@@ -17,8 +29,12 @@ for name in names:
     checks = {}
     try:
         man = json.load(open(f'{VERIF}/MANIFEST.json'))
+        aff = affected(f'{d}/patch.diff')
         for c in man['checks']:
             p = c['property_id']
+            if p not in aff:
+                checks[p] = {'exit': 0, 'lines': ['not run: no unit of this property lifts text from a file the patch touches'], 'wall_s': 0}
+                continue
             t = time.time()
             rc, out = sh(f'bin/check {p}', cwd=VERIF)
             lines = [l for l in out.splitlines() if l.startswith(('VIOLATION', 'UNDECIDED', 'OK'))]
